@@ -12,10 +12,10 @@ use serde_json::{json, Value};
 
 const NPAGES: &[&str] = &["1-page", "0-pages", "2-pages", "3-pages"];
 const OPSETS: &[&str] = &["marker-only", "empty", "path+paint", "text", "colors+state", "shorthand-s-b", "shorthand-quote", "shorthand-TD", "shorthand-v-y", "marked-content", "inline-images"];
-const BOX: &[&str] = &["letter", "absent", "non-integer", "negative-origin"];
-const OPTBOX: &[&str] = &["absent", "present", "non-integer"];
+const BOX: &[&str] = &["letter", "absent", "non-integer", "negative-origin", "tiny-and-huge-coordinates"];
+const OPTBOX: &[&str] = &["absent", "present", "non-integer", "tiny-and-huge-coordinates"];
 const ROTATE: &[&str] = &["0", "90", "-90", "270"];
-const OTHER: &[&str] = &["none", "int", "nested-dict", "name", "string+array"];
+const OTHER: &[&str] = &["none", "int", "nested-dict", "name", "string+array", "tiny-real"];
 const RES: &[&str] = &["none", "font", "ext-gstate", "both", "colour-spaces"];
 const INFO: &[&str] = &["none", "title-only", "all-fields"];
 const PRIM: &[&str] = &["none", "metadata-dict"];
@@ -48,7 +48,9 @@ fn rect(kind: usize) -> Option<Rectangle> {
         0 => Some(Rectangle { left: 0.0, bottom: 0.0, right: 612.0, top: 792.0 }),
         1 => None,
         2 => Some(Rectangle { left: 0.5, bottom: 0.25, right: 595.276, top: 841.89 }),
-        _ => Some(Rectangle { left: -10.0, bottom: -20.0, right: 100.0, top: 2147483648.0 }),
+        3 => Some(Rectangle { left: -10.0, bottom: -20.0, right: 100.0, top: 2147483648.0 }),
+        // magnitudes at which float formatting switches notation
+        _ => Some(Rectangle { left: 0.00005, bottom: -0.0000001, right: 3e16, top: 1e20 }),
     }
 }
 fn rect_eq(a: &Option<Rectangle>, b: &Option<Rectangle>) -> bool {
@@ -98,6 +100,9 @@ pub fn builder_case(ch: &mut Chooser, t: &mut Tally) {
             3 => {
                 other.insert("Tabs", Primitive::Name("S".into()));
             }
+            5 => {
+                other.insert("UserUnit", Primitive::Number(0.000075));
+            }
             4 => {
                 other.insert("Custom", Primitive::Array(vec![Primitive::String(PdfString::new(b"a (string) \\ with \r specials"[..].into())), Primitive::Boolean(true)]));
             }
@@ -106,7 +111,8 @@ pub fn builder_case(ch: &mut Chooser, t: &mut Tally) {
         let optbox = |k: usize| match k {
             0 => None,
             1 => Some(Rectangle { left: 10.0, bottom: 20.0, right: 300.0, top: 400.0 }),
-            _ => Some(Rectangle { left: 0.1, bottom: 0.2, right: 99.9, top: 100.125 }),
+            2 => Some(Rectangle { left: 0.1, bottom: 0.2, right: 99.9, top: 100.125 }),
+            _ => Some(Rectangle { left: 0.00002, bottom: 0.00005, right: 1e16, top: 123456789012345680000.0 }),
         };
         let metadata = if md == 1 {
             let mut d = Dictionary::new();
@@ -361,7 +367,7 @@ pub fn run(tier: Tier, _seed: u64, tally: &mut Tally) -> CheckMeta {
     CheckMeta {
         prop: "C10",
         level: "model_checking",
-        rule: format!("PdfBuilder inputs with <= {} deviations from 'one page, marker text only, letter media box': number of pages (0..3), per page: 11 operation sets (from the C08 alphabet incl. every shorthand trigger), media/crop/trim box (absent, integer, non-integer, negative/huge), rotation, 5 kinds of extra entries, resources (font created through the updater, ext-gstate, both, eight colour spaces incl. an indexed table too large for a string), metadata entry; info dictionary (none, title only, all fields incl. dates and trapped). Each build is (1) reloaded with the library: page count, order by marker, boxes, rotation, extras, operation sequences, resources, info; (2) read by the independent structural reader: header first, startxref -> xref section, every in-use entry -> matching object header, /Size above every number, every /Length = byte count, no reference to an undefined object. Distinct by hash of the built bytes.", bound),
+        rule: format!("PdfBuilder inputs with <= {} deviations from 'one page, marker text only, letter media box': number of pages (0..3), per page: 11 operation sets (from the C08 alphabet incl. every shorthand trigger), media/crop/trim box (absent, integer, non-integer, negative/huge, coordinates below 1e-4 and above 1e16), rotation, 5 kinds of extra entries, resources (font created through the updater, ext-gstate, both, eight colour spaces incl. an indexed table too large for a string), metadata entry; info dictionary (none, title only, all fields incl. dates and trapped). Each build is (1) reloaded with the library: page count, order by marker, boxes, rotation, extras, operation sequences, resources, info; (2) read by the independent structural reader: header first, startxref -> xref section, every in-use entry -> matching object header, /Size above every number, every /Length = byte count, no reference to an undefined object. Distinct by hash of the built bytes.", bound),
         assumptions: vec!["operation sets only use operations the serializer accepts (no inline images)".into()],
         exhaustive: true,
         bounds: json!({"deviations": bound, "pages": 3}),
